@@ -75,11 +75,16 @@ def gen_solution(rng, db, number=1, hard=False):
     lines.append(f" units {units}")
     nel = rng.randint(1, 8)
     chosen = rng.sample(prim, min(nel, len(prim)))
+    redox = [e for e in prim if e in val]
+    if redox and rng.random() < 0.6:          # favour elements with several valence states (rewriting, basis switches)
+        for e in rng.sample(redox, min(len(redox), rng.randint(1, 2))):
+            if e not in chosen:
+                chosen[rng.randrange(len(chosen))] = e
     charge_on = None
     r = rng.random()
-    if r < 0.25:
+    if r < 0.2:
         charge_on = "pH"
-    elif r < 0.5 and chosen:
+    elif r < 0.32 and chosen:
         charge_on = rng.choice(chosen)
     lines.append(f" pH {fmt(ph)}" + (" charge" if charge_on == "pH" else ""))
     lines.append(f" pe {fmt(pe)}")
@@ -91,8 +96,8 @@ def gen_solution(rng, db, number=1, hard=False):
     used_o0 = False
     for e in chosen:
         molal = log_uniform(rng, 1e-9, hi)
-        if rng.random() < 0.5:
-            molal = log_uniform(rng, 1e-6, 0.1)
+        if rng.random() < 0.7:
+            molal = log_uniform(rng, 1e-7, 0.05)
         m = db.master_of_element(e)
         gfw = m.gfw if (m and m.gfw) else (m.elt_gfw if m else None)
         names = [e]
@@ -118,10 +123,11 @@ def gen_solution(rng, db, number=1, hard=False):
             if charge_on == nm or (charge_on == e and nm == names[0]):
                 tail = " charge"
                 meta["features"].append("charge-element")
-            elif rng.random() < 0.08:
-                ph_names = [p for p, ph_ in db.phases.items() if e in ph_.elements and "(g)" not in p and len(ph_.elements) <= 4]
+            elif rng.random() < 0.05:
+                have = set(x.split("(")[0] for x in chosen) | {"H", "O"}
+                ph_names = [p for p, ph_ in db.phases.items() if e in ph_.elements and set(ph_.elements) <= have]
                 if ph_names:
-                    tail = f" {rng.choice(ph_names)} {fmt(rng.uniform(-2, 1))}"
+                    tail = f" {rng.choice(ph_names)} {fmt(rng.uniform(-1, 0.5))}"
                     meta["features"].append("phase-adjusted")
             lines.append(f" {nm} {fmt(v)}{own_units}{tail}")
             meta["elements"].append(nm)
